@@ -825,10 +825,17 @@ func (ex *Exec) addrOf(st *State, e *ast.UnaryExpr) *Val {
 			base, isPtr := derefType(recv.T)
 			if isPtr {
 				ex.nilCheck(st, recv, e.Pos(), "address of field")
+				id := ex.fieldID(ex.fieldHeapName(base, x.Sel.Name))
 				if _, isStruct := selInfo.Obj().Type().Underlying().(*types.Struct); !isStruct {
-					id := ex.fieldID(ex.fieldHeapName(base, x.Sel.Name))
 					return &Val{T: t, Term: ex.fpMk(recv.Term, intLit(int64(id)))}
 				}
+				// struct-typed field: the pointer has an identity (same field of
+				// the same object gives the same pointer) but its target is not
+				// connected to the parent's field value
+				ex.W.Unsup[ex.posStr(e.Pos())+": address of a struct-typed field: identity only, contents opaque"] = true
+				p := ex.fpMk(recv.Term, intLit(int64(id)))
+				st.assume(gt(p, intLit(0)))
+				return &Val{T: t, Term: p}
 			}
 		}
 	}
